@@ -189,6 +189,8 @@ func evalC16(c c16Case, o *Obs) error {
 	var bytesPtr *byte
 	height := bchutil.BlockHeightUnknown
 	sawTx, sawTransactions, sparse, oor := false, false, false, false
+	var siblings []*bchutil.Block
+	var siblingRaw [][]byte
 	for step, op := range c.Ops {
 		via := fmt.Sprintf("block(%d txs, ctor %d) step %d %s(%d)", n, c.Ctor, step, op.Op, op.I)
 		switch op.Op {
@@ -266,6 +268,28 @@ func evalC16(c c16Case, o *Obs) error {
 					return fmt.Errorf("%s: location %d (%d,%d) does not delimit transaction %d's serialisation", via, i, l.TxStart, l.TxLen, i)
 				}
 			}
+		case "sibling":
+			// another block of similar size is created and used in between: blocks must not share state
+			sm := wire.NewMsgBlock(&wire.BlockHeader{Version: 4, Bits: 0x1d00ffff, Nonce: uint32(op.I)})
+			for i, sp := range c.Txs {
+				sp.Salt += 1 + op.I%7
+				sm.AddTransaction(buildC16Tx(sp, i))
+			}
+			sb := bchutil.NewBlock(sm)
+			sraw, err := serializeBlock(sm)
+			if err != nil {
+				return hbug("sibling serialize: %v", err)
+			}
+			got, err := sb.Bytes()
+			if err != nil || !bytes.Equal(got, sraw) {
+				return fmt.Errorf("%s: sibling block's Bytes() differ from a fresh serialisation", via)
+			}
+			sb.TxLoc()
+			sb.Hash()
+			sb.Transactions()
+			siblings = append(siblings, sb)
+			siblingRaw = append(siblingRaw, sraw)
+			o.Class("C16:sibling-block-interleaved")
 		case "setheight":
 			b.SetHeight(int32(op.I))
 			height = int32(op.I)
@@ -275,6 +299,11 @@ func evalC16(c c16Case, o *Obs) error {
 		}
 		if b.Height() != height {
 			return fmt.Errorf("%s: Height() = %d, want %d", via, b.Height(), height)
+		}
+	}
+	for i, sb := range siblings {
+		if got, err := sb.Bytes(); err != nil || !bytes.Equal(got, siblingRaw[i]) {
+			return fmt.Errorf("sibling block %d: Bytes() changed after the other block was used", i)
 		}
 	}
 	// final: everything, then re-parse
@@ -367,7 +396,11 @@ func genC16(t *rapid.T) c16Case {
 		case 9:
 			c.Ops = append(c.Ops, c16Op{"txloc", 0})
 		case 10:
-			c.Ops = append(c.Ops, c16Op{"setheight", rapid.IntRange(-5, 1000000).Draw(t, "h")})
+			if rapid.Bool().Draw(t, "sib") {
+				c.Ops = append(c.Ops, c16Op{"sibling", rapid.IntRange(0, 50).Draw(t, "sibsalt")})
+			} else {
+				c.Ops = append(c.Ops, c16Op{"setheight", rapid.IntRange(-5, 1000000).Draw(t, "h")})
+			}
 		default:
 			c.Ops = append(c.Ops, c16Op{"height", 0})
 		}
@@ -474,6 +507,6 @@ func TestC16(t *testing.T) {
 		kC16.Run(t, ev, perShard(pick(3000, 300000)))
 		kC16Tx.Run(t, ev, perShard(pick(1500, 150000)))
 		ev.requireClasses("C16:ctor=0", "C16:ctor=1", "C16:ctor=2", "C16:ctor=3", "C16:sparse-cache-then-all",
-			"C16:out-of-range-index", "C16:empty-block", "C16:block-with-token-data", "C16:tx-ctor=1")
+			"C16:out-of-range-index", "C16:empty-block", "C16:block-with-token-data", "C16:tx-ctor=1", "C16:sibling-block-interleaved")
 	})
 }
